@@ -180,6 +180,7 @@ scoped instance instNumRat : Num ℚ where
   neg := fun a => -a
   isZero := fun a => decide (a = 0)
   lt := fun a b => decide (a < b)
+  isNaN := fun _ => false
 end RatNum
 open RatNum
 
